@@ -24,7 +24,7 @@ NextSync(i) ==
 
 Accept(ev) == Allowed(st, ev) /\ CInv(Apply(st, ev))
 
-TInit == /\ st = CInit({}, FALSE, FALSE)
+TInit == /\ st = CInit({}, FALSE, FALSE, [x \in {} |-> 0])
          /\ l = 1
          /\ bad = <<>>
          /\ done = FALSE
@@ -35,7 +35,8 @@ TNext ==
   \/ /\ l <= N
      /\ LET ev == T[l] IN
         IF ev.e = "reset"
-          THEN /\ st' = CInit(ToSet(ev.sandboxes), ev.hooks, ev.fits)
+          THEN /\ st' = CInit(ToSet(ev.sandboxes), ev.hooks, ev.fits,
+                            IF "libs" \in DOMAIN ev THEN ev.libs ELSE [s \in ToSet(ev.sandboxes) |-> 0])
                /\ l' = l + 1
                /\ UNCHANGED <<bad, done>>
         ELSE IF Accept(ev)
